@@ -1,2 +1,3 @@
 import ChamProofs.ReLemmas
 import ChamProofs.Props.C03
+import ChamProofs.Props.C02
